@@ -6,6 +6,7 @@ mod model;
 mod par;
 mod probe;
 mod props_crash;
+mod props_flat;
 mod props_seq;
 mod report;
 mod sqldrv;
@@ -14,6 +15,7 @@ fn lookup(engine: &str) -> Option<par::WorkerFn> {
     match engine {
         "seq" => Some(engines::seq::worker),
         "crash" => Some(engines::crash::worker),
+        "wire" => Some(engines::wire::worker),
         _ => None,
     }
 }
@@ -25,6 +27,7 @@ fn check(prop: &str, tier: &str) -> i32 {
         "C02" => props_crash::c02(tier),
         "C08" => props_crash::c08(tier),
         "C03" => props_seq::c03(tier),
+        "C20" => props_flat::c20(tier),
         "C04" => props_seq::c04(tier),
         "C07" => props_seq::c07(tier),
         "C09" => props_seq::c09(tier),
@@ -75,6 +78,14 @@ fn main() {
         Some("probe") => probe::run(&args[2..]),
         Some("check") => check(&args[2], args.get(3).map(|s| s.as_str()).unwrap_or("quick")),
         Some("replay") => replay(&args[2]),
+        Some("run-json") => {
+            // run-json <engine> <params json> <case json>
+            let f = lookup(&args[2]).expect("engine");
+            let params: serde_json::Value = serde_json::from_str(&args[3]).unwrap();
+            let case: serde_json::Value = serde_json::from_str(&args[4]).unwrap();
+            println!("{}", serde_json::to_string_pretty(&f(&params, &case)).unwrap());
+            0
+        }
         Some("run-case") => {
             // run-case <engine> <params.json> <hist as JSON list>
             let f = lookup(&args[2]).expect("engine");
